@@ -17,8 +17,8 @@ func init() {
 		}
 		return []CaseSet{genFiles(r, "files", "enc", n, fileKnobs{maxGroup: 8, fieldPct: 30}),
 				genFiles(r, "files-sparse", "enc", n/2, fileKnobs{maxGroup: 20, fieldPct: 8}),
-				genEveryFieldAlone(r, "enc", fileKnobs{})},
-			"Files over the 17 file types: every hosted message type, random subsets of set fields with boundary values, groups of 0-20 messages with different valid-field sets, both byte orders, headers with and without CRC; every hosted message with every field set alone. Oracles: bytes equal the model's; an independent recogniser (own CRC, own record grammar) accepts the bytes; File.Header.DataSize/CRC and File.CRC equal the written values", false
+				genEveryFieldAlone(r, "enc", fileKnobs{}), genEncodedTwice(r, n/5)},
+			"Files over the 17 file types: every hosted message type, random subsets of set fields with boundary values, groups of 0-20 messages with different valid-field sets, both byte orders, headers with and without CRC; every hosted message with every field set alone. Oracles: bytes equal the model's; an independent recogniser (own CRC, own record grammar) accepts the bytes; File.Header.DataSize/CRC and File.CRC equal the written values; Files encoded twice with the protocol version changed in between (the header then carries the data size and CRCs of the first output): the second output is held to the same oracles", false
 	}
 	propPost["C05"] = postC05
 
@@ -54,10 +54,93 @@ func init() {
 			cs.Cases = append(cs.Cases, "c07 "+strconv.Itoa(r.intn(2))+" "+hex.EncodeToString(data))
 		}
 		// model-generated Files, encoded by the real encoder first
-		return []CaseSet{cs},
-			"every corpus file, structured random streams and mutants: Decode; for accepted inputs Encode (one byte order), CheckIntegrity and Decode of the output, Encode in the other byte order, Decode. Oracles: no stage fails or panics; generation 2 has the per-type message counts and numeric/time/coordinate values of generation 1 (strings and arrays up to the profile's fixed lengths); generation 3 equals generation 2", false
+		return []CaseSet{cs, genStringSizes(r)},
+			"every corpus file, structured random streams and mutants; every string field of every hosted message defined shorter than, as long as and longer than the profile length, holding multi-byte characters that end exactly at, straddle or start at the cut Encode makes: Decode; for accepted inputs Encode (one byte order), CheckIntegrity and Decode of the output, Encode in the other byte order, Decode. Oracles: no stage fails or panics; generation 2 has the per-type message counts and numeric/time/coordinate values of generation 1 (strings and arrays up to the profile's fixed lengths); generation 3 equals generation 2", false
 	}
 	propPost["C07"] = postC07
+}
+
+// genEncodedTwice: a File goes through Encode, one header field (the protocol version) is changed
+// on the File that came back, and it goes through Encode again: nothing of the first output (data
+// size, header CRC, file CRC now stored in the File) may survive into the second where it is stale
+func genEncodedTwice(r *rng, n int) CaseSet {
+	cs := CaseSet{Name: "files-encoded-twice"}
+	for _, c := range genFiles(r, "x", "enc2", n, fileKnobs{maxGroup: 5, fieldPct: 30}).Cases {
+		f := strings.SplitN(c, " ", 3)
+		if len(f) != 3 {
+			continue
+		}
+		pv := []int{0x10, 0x20, 0x21, 0x2F, 0x00, 0x1F}[r.intn(6)]
+		cs.Cases = append(cs.Cases, fmt.Sprintf("enc2 %s %d %s", f[1], pv, f[2]))
+	}
+	return cs
+}
+
+// genStringSizes: string fields whose definition gives them another size than the profile does, with
+// multi-byte characters around the position where Encode cuts the string (profile length - 1): a
+// character that ends exactly there must survive the trip, one that straddles it makes Encode fail
+// (finding D13), one that starts there is dropped whole.
+func genStringSizes(r *rng) CaseSet {
+	cs := CaseSet{Name: "string-sizes-vs-profile"}
+	fts := hostedFileTypes()
+	for _, m := range theFacts().Msgs {
+		if !m.Known {
+			continue
+		}
+		for _, f := range m.Fields {
+			tc := f[2]
+			if tcKind(tc) != 0 || tcArray(tc) || tcBase(tc) != 0x07 || len(f) < 4 {
+				continue
+			}
+			plen := f[3]
+			if plen < 4 || plen > 200 {
+				continue
+			}
+			ft := -1
+			for _, x := range fts {
+				if m.Num == 0 || hostHas(x, m.Num) {
+					ft = int(x)
+					break
+				}
+			}
+			if ft < 0 {
+				continue
+			}
+			cut := plen - 1 // Encode keeps this many bytes
+			for _, size := range []int{plen - 1, plen, plen + 1, plen + 4} {
+				for _, ch := range [][]byte{{0xC3, 0xA9}, {0xE2, 0x82, 0xAC}} {
+					for _, end := range []int{cut, cut + 1, cut + len(ch) - 1 + 1} {
+						// the character occupies bytes [end-len(ch), end)
+						start := end - len(ch)
+						if start < 1 || end > size {
+							continue
+						}
+						str := make([]byte, 0, size)
+						for len(str) < start {
+							str = append(str, byte('A'+len(str)%26))
+						}
+						str = append(str, ch...)
+						for len(str) < size-1 && r.chance(70) {
+							str = append(str, byte('a'+len(str)%26))
+						}
+						val := make([]byte, size) // zero padded; no terminator when the text fills the field
+						copy(val, str)
+						w := &sw{}
+						if m.Num == 0 {
+							w.define(defn{local: 0, global: 0, fields: []fdef{{0, 1, 0x00}, {byte(f[1]), byte(size), 0x07}}})
+							w.data(0, append([]byte{byte(ft)}, val...))
+						} else {
+							w.Write(fileIdRecs(byte(ft), 0))
+							w.define(defn{local: 1, global: uint16(m.Num), fields: []fdef{{byte(f[1]), byte(size), 0x07}}})
+							w.data(1, val)
+						}
+						cs.Cases = append(cs.Cases, "c07 "+strconv.Itoa(r.intn(2))+" "+hex.EncodeToString(frame(w.Bytes(), defaultFrame())))
+					}
+				}
+			}
+		}
+	}
+	return cs
 }
 
 func postC05(res *RunResult) {
@@ -78,7 +161,13 @@ func postC05(res *RunResult) {
 			continue
 		}
 		// the values on the wire against the File that was encoded
-		if cf := strings.SplitN(c, " ", 3); len(cf) == 3 {
+		if strings.HasPrefix(c, "enc2 ") {
+			if cf := strings.SplitN(c, " ", 4); len(cf) == 4 {
+				if d := wireValuesAgree(cf[3], gi.recs); d != "" {
+					addViolation(res, c, out, "values on the wire differ from the File: "+d)
+				}
+			}
+		} else if cf := strings.SplitN(c, " ", 3); len(cf) == 3 {
 			if d := wireValuesAgree(cf[2], gi.recs); d != "" {
 				addViolation(res, c, out, "values on the wire differ from the File: "+d)
 			}
